@@ -147,7 +147,12 @@ def run_case(case, workdir):
     if "resume" in twins and n_iter >= 2:
         s2 = copy.deepcopy(scn)
         s2["checkpoint"] = {"mode": pick(rng, ["path", "callback"]), "every": 1}
-        res = explore(s2, workdir, want=("c08",), rng=rng, routes=("bytes", "resume_from_file"), max_crash_points=8, max_states=2)
+        s3 = copy.deepcopy(s2)
+        if rng.integers(2) == 0:
+            # the resuming call may be given another n_samples (e.g. the default 1000): the population comes from the checkpoint
+            s3["n_samples"] = int(pick(rng, [1000, scn["n_samples"] + 17, max(4, scn["n_samples"] // 2)]))
+        res = explore(s2, workdir, want=("c08",), rng=rng, routes=("bytes", "dict", "resume_from_file"), max_crash_points=8, max_states=2,
+                      resume_scn=s3)
         V += [v for v in res["violations"] if v["oracle"].startswith("c08.")]
         evaluations += res["evaluations"]
         events += res["events"]
